@@ -13,8 +13,8 @@ from engine import identical
 
 PID = 'C07'
 CVC5_RATE = [0.01]
-WORDS = ['a', '12', '1.5', 'true', 'x1']
-STRINGS = ['"s"']
+WORDS = ['a', '12', '1.5', 'true', 'x1', '.5', '_x']
+STRINGS = ['"s"', '"3"']
 OPS = ['+', '-', '*', '/', '%', '^', '==', '!=', '>', '<', '>=', '<=', '&&', '||', '!', '(', ')', '=', '+=', '-=', '*=', '/=', '%=', '^=',
        '&&=', '||=', ',', ';']
 ALPHABET = WORDS + STRINGS + OPS
@@ -22,11 +22,26 @@ SAFE = {'(', ')', ',', ';'}
 GAP_ITEMS = ['w', 'b', 'l']       # whitespace char, /*body*/, //body\n
 
 
+def tok_class(t):
+    return 'str' if t.startswith('"') else 'word' if (t[0].isalnum() or t[0] in '._') else 'op'
+
+
 def may_be_empty(t1, t2):
-    """a gap may be left empty only where no fusion can occur (conservative)"""
+    """a gap may be left empty only where no fusion can occur: next to a parenthesis / separator, next to a string literal (the quotes
+    delimit it), or between a word and an operator; two words and two operators (compound operators, comment openers) stay separated"""
     if t1 is None or t2 is None:
         return True
-    return t1 in SAFE or t2 in SAFE
+    if t1 in SAFE or t2 in SAFE:
+        return True
+    k1, k2 = tok_class(t1), tok_class(t2)
+    if 'str' in (k1, k2):
+        return True
+    return k1 != k2
+
+
+def sci_fuse(t1, t2, t3):
+    """`<digits>e` `+|-` `<digits>` written without any separator is the documented three-part scientific literal: that triple fuses"""
+    return tok_class(t1) == 'word' and t1[-1] in 'eE' and t2 in ('+', '-') and tok_class(t3) == 'word' and (t3[0].isdigit() or t3[0] == '.')
 
 
 def gap_kinds(maxitems, allow_empty):
@@ -293,14 +308,16 @@ def jobs_for(tier, seed):
             jobs.append(([t], [g, ()], 1))
             jobs.append(([t], [(), g], 1))
     # triples over a reduced alphabet (three-token scientific notation join, compound assignment operators)
-    red = ['a', '1e', '3', '"s"', '+', '-', '/', '*', '=', '&&', '(', ')'] if tier == 'quick' else \
-        ['a', '1e', '3', '1.5', '"s"', '+', '-', '/', '*', '=', '&&', '||', '!', '<', '(', ')', ',']
+    red = ['a', '1e', '3', '"s"', '"3"', '+', '-', '/', '*', '=', '&&', '(', ')'] if tier == 'quick' else \
+        ['a', '1e', '2E', '3', '1.5', '.5', '"s"', '"3"', '+', '-', '/', '*', '=', '&&', '||', '!', '<', '(', ')', ',']
     for t1 in red:
         for t2 in red:
             for t3 in red:
                 ks1 = [k for k in gap_kinds(1, may_be_empty(t1, t2))]
                 ks2 = [k for k in gap_kinds(1, may_be_empty(t2, t3))]
-                combos = [(a, b) for a in ks1 for b in ks2]
+                combos = [(a, b) for a in ks1 for b in ks2 if not (sci_fuse(t1, t2, t3) and a == () and b == ())]
+                if () in ks1 and () in ks2 and ((), ()) in combos and tier == 'quick':
+                    jobs.append(([t1, t2, t3], [(), (), (), ()], 1))      # the fully juxtaposed rendering is always included
                 if tier == 'quick':
                     combos = rng.sample(combos, min(3, len(combos)))
                 for a, b in combos:
